@@ -5,6 +5,8 @@ package provider
 // Contracts for the sweeping provider (property C17). Comment-only.
 
 /*@
+immutable "github.com/libp2p/go-libp2p-kad-dht/provider.ErrClosed"
+axiom errclosed_nonnil: ErrClosed != nil
 immutable field SweepingProvider.reprovideInterval
 immutable field SweepingProvider.maxReprovideDelay
 immutable field SweepingProvider.replicationFactor
@@ -22,8 +24,21 @@ func (s *SweepingProvider) closestPeersToPrefix(prefix bitstr.Key) ([]peer.ID, b
   modifies *
   ensures [covered-is-an-ancestor] imp(result2 == nil, isAnc(result1, old(prefix)))
   loop 0 invariant isAnc(prefix, old(prefix))
+  loop 1 invariant len(fullKey) == 256 && len(coveredPrefix) <= 256 && len(closestPeers) >= 2
   loop 3 invariant isAnc(prefix, old(prefix))
   loop 5 invariant isAnc(prefix, old(prefix))
+
+# The regions are built from exactly the peers the exploration gathered, with
+# the configured replication factor, for the prefix reported as covered - which
+# is the requested prefix or an ancestor of it.
+func (s *SweepingProvider) exploreSwarm(prefix bitstr.Key) (regions []keyspace.Region, coveredPrefix bitstr.Key, err error)
+  props C17
+  ghostvar $peers []peer.ID = nil
+  modifies *
+  ensures [covered-is-an-ancestor] imp(err == nil, isAnc(coveredPrefix, prefix))
+  ghost at before call(closestPeersToPrefix): assert($arg0 == prefix)
+  ghost at call(closestPeersToPrefix): $peers = $ret0
+  ghost at before call(RegionsFromPeers): assert($arg0 == $peers && len($peers) > 0 && $arg1 == s.replicationFactor && $arg2 == s.order && $arg3 == coveredPrefix)
 
 # ---- schedule arithmetic ----------------------------------------------------
 # Offsets live in [0, interval). timeBetween is the wait from one offset to
@@ -64,8 +79,6 @@ func (s *SweepingProvider) failedReprovide(prefix bitstr.Key, err error)
   modifies *
 func (s *SweepingProvider) failedProvide(prefix bitstr.Key, keys []mh.Multihash, err error)
   modifies *
-func (s *SweepingProvider) exploreSwarm(prefix bitstr.Key) (regions []keyspace.Region, coveredPrefix bitstr.Key, err error)
-  modifies *
 func (s *SweepingProvider) claimRegionReprovide(regions []keyspace.Region) []keyspace.Region
   modifies *
 func (s *SweepingProvider) unscheduleSubsumedPrefixesNoLock(prefix bitstr.Key)
@@ -92,13 +105,14 @@ func (s *SweepingProvider) batchReprovide(prefix bitstr.Key)
   modifies *
   ghost at call(selfAddrInfo): $ai = $ret0
   ghost at call(exploreSwarm): $cov = $ret1; $explored = ($ret2 == nil)
+  ghost at before call(claimRegionReprovide): assert(isAnc($cov, old(prefix)))
   ghost at before call(exploreSwarm): assert($arg0 == old(prefix))
   ghost at before call(Get)#0: assert(!$explored && $arg1 == old(prefix))
   ghost at before call(Get)#1: assert($explored && $arg1 == $cov)
   ghost at call(Get)#1: $keys = $ret0
   ghost at before call(DequeueMatching): assert($explored && $arg0 == ite(len($cov) < len(old(prefix)), $cov, old(prefix)))
   ghost at before call(Remove): assert($arg0 == ite(len($cov) < len(old(prefix)), $cov, old(prefix)))
-  ghost at before call(unscheduleSubsumedPrefixesNoLock): assert(held(s.scheduleLk) && $arg0 == ite(len($cov) < len(old(prefix)), $cov, old(prefix)))
+  ghost at before call(unscheduleSubsumedPrefixesNoLock): assert(held(s.scheduleLk) && $arg0 == $cov)
   ghost at before call(AssignKeysToRegions): assert($arg1 == $keys)
   ghost at call(AssignKeysToRegions): $regions = $ret0
   ghost at before call(provideRegions): assert($arg0 == $regions && $arg1 == $ai && $arg2)
@@ -152,6 +166,60 @@ func (s *SweepingProvider) provideRegions(regions []keyspace.Region, addrInfo pe
   ghost at before call(reschedulePrefix): assert($arg0 == r.Prefix && reprovide); $resched = $resched + 1
   ghost at before call(failedReprovide): assert($arg0 == r.Prefix && reprovide && err != nil)
   ghost at before call(failedProvide): assert($arg0 == r.Prefix && $arg1 == keys && !reprovide)
+
+# ---- entry points: what happens to the keys handed in ------------------------------
+func (s *SweepingProvider) isOffline() bool
+  modifies *
+func (s *SweepingProvider) groupAndScheduleKeysByPrefix(keys []mh.Multihash, schedule bool) map[bitstr.Key][]mh.Multihash
+  modifies *
+func (s *SweepingProvider) provideLoop()
+  modifies *
+
+# Keys to be kept are first stored in the keystore (so that later cycles
+# reprovide them even if the node is offline now); the keys grouped, scheduled
+# and queued are all keys handed in (forced / provide-once) or the ones the
+# keystore reports as new; every group is queued under its own prefix; the
+# provide loop is only started while the wait-group guard is read-held, the
+# provider is not closed and the wait group was incremented.
+func (s *SweepingProvider) handleProvide(force, reprovide bool, keys ...mh.Multihash)
+  props C17 C14
+  ghostvar $new []mh.Multihash = nil
+  ghostvar $stored bool = false
+  ghostvar $closedSeen bool = false
+  ghostvar $closedNow bool = false
+  modifies *
+  ghost at before call(Put): assert(reprovide && $arg1 == old(keys))
+  ghost at call(Put): $new = $ret0; $stored = ($ret1 == nil)
+  ghost at before call(groupAndScheduleKeysByPrefix): assert(imp(reprovide, $stored) && $arg1 == reprovide && $arg0 == ite(reprovide && !force, $new, old(keys)))
+  ghost at before call(Enqueue): assert($arg0 == prefixAndKeys.Prefix && $arg1 == prefixAndKeys.Keys)
+  ghost at before call(Add): assert(held(s.wgLk) && $closedSeen && !$closedNow)
+  ghost at call(closed): $closedSeen = true; $closedNow = $ret0
+  ghost at go(provideLoop): assert(wgcount(s.wg) == 1)
+
+func (s *SweepingProvider) ProvideOnce(keys ...mh.Multihash) error
+  props C17
+  modifies *
+  ghost at before call(handleProvide): assert($arg0 && !$arg1 && $arg2 == keys)
+
+func (s *SweepingProvider) StartProviding(force bool, keys ...mh.Multihash) error
+  props C17
+  modifies *
+  ghost at before call(handleProvide): assert($arg0 == force && $arg1 == (s.reprovideInterval > 0) && $arg2 == keys)
+
+# Stopped keys leave the provide queue and - when a schedule exists - the
+# keystore, which is what later reprovide cycles read (batchReprovide loads
+# its keys from the keystore): they are not re-advertised in later cycles.
+func (s *SweepingProvider) StopProviding(keys ...mh.Multihash) error
+  props C17
+  ghostvar $removed bool = false
+  ghostvar $deleted bool = false
+  ghostvar $derr error = nil
+  modifies *
+  ensures [internal-stop-reaches-queue-and-keystore] imp(result == nil, $removed && imp(s.reprovideInterval > 0, $deleted && $derr == nil))
+  ghost at before call(Remove): assert($arg0 == keys); $removed = true
+  ghost at before call(Delete): assert($arg1 == keys && s.reprovideInterval > 0); $deleted = true
+  ghost at call(Delete): $derr = $ret0
 @*/
+
 
 
